@@ -7,7 +7,7 @@ import random
 
 import vlib
 
-OWN = {"C03": ("C03.",), "C12": ("C03.",), "C20": ("C20.",), "C01": ("C01.", "C03.", "C20."), "C15": ("C15.",)}
+OWN = {"C03": ("C03.",), "C12": ("C03.",), "C20": ("C20.",), "C01": ("C01.", "C03.", "C20.", "C15."), "C15": ("C15.",)}
 
 
 def scenarios(seed, n):
@@ -23,9 +23,24 @@ def scenarios(seed, n):
             acts.append({"at": rng.randrange(0, 4), "act": "adv", "k": 0, "d": rng.choice([1, 3, 7, 12, 19, 20, 21, 40])})
         if kind in ("all", "keys", "values"):
             for _ in range(rng.randrange(0, 5)):
-                acts.append({"at": rng.randrange(0, 6), "act": rng.choice(["set", "set", "inv"]), "k": rng.randrange(N), "d": 0})
+                acts.append({"at": rng.randrange(0, 6), "act": rng.choice(["set", "set", "inv", "setshort"]), "k": rng.randrange(N), "d": 0})
+        step = 1
+        if j % 3 == 0 and kind in ("all", "keys", "values"):
+            # the body rewrites MANY keys at once (a node that was replaced after its bucket had been copied is looked up again by
+            # the iterator), then lets time pass
+            N, step = 120, 0          # all keys written at second 0, deadline = ttl
+            if (j // 3) % 2 == 0:
+                # ... past the short deadlines of the new values
+                at = rng.randrange(0, 2)
+                acts = [{"at": at, "act": rng.choice(["set", "setshort", "setshort"]), "k": k, "d": 0} for k in range(N) if rng.randrange(4)]
+                acts.append({"at": at + 1, "act": "adv", "k": 0, "d": rng.choice([3, 5, 9])})
+            else:
+                # ... past the old deadlines but not past the new ones
+                acts = [{"at": 0, "act": "adv", "k": 0, "d": 10}]
+                acts += [{"at": 1, "act": "set", "k": k, "d": 0} for k in range(N) if rng.randrange(4)]
+                acts.append({"at": 2, "act": "adv", "k": 0, "d": 12})
         out.append({"stable": 0, "churn": 0, "writers": 0, "iters": 0, "bounded": (j // 5) % 2, "expiry": 1, "kind": kind,
-                    "seed": seed * 100000 + 90000 + j, "body": 1, "n": N, "ttl": ttl, "step": 1, "acts": acts})
+                    "seed": seed * 100000 + 90000 + j, "body": 1, "n": N, "ttl": ttl, "step": step, "acts": acts})
     return out
 
 
